@@ -326,3 +326,24 @@ Qed.
 
 Print Assumptions parts_walk_complete.
 Print Assumptions list_uploads_exact.
+
+(* a key marker behind every key that has a pending upload (made up, or handed out before the uploads
+   behind it were aborted or completed): the seek finds nothing; the page is empty and final *)
+Lemma sm_seek_behind_all {V} (k : list N) (m : list (list N * V)) :
+  (forall kv, In kv m -> bltb (fst kv) k = true) -> sm_seek k m = [].
+Proof.
+  induction m as [|[k' v'] m IH]; intros H; cbn [sm_seek]; [reflexivity|].
+  pose proof (H (k', v') (or_introl eq_refl)) as Hk. cbn [fst] in Hk. rewrite Hk. apply IH.
+  intros kv Hi. apply H. right. exact Hi.
+Qed.
+
+Lemma list_uploads_marker_behind_every_key u b bu pre delim km idm limit :
+  sm_get b (u_buckets u) = Some bu -> km <> [] ->
+  (forall kv, In kv (bu_index bu) -> bltb (fst kv) km = true) ->
+  exists r, list_uploads u b pre delim km idm limit = inr r /\
+    ur_uploads r = [] /\ ur_prefixes r = [] /\ ur_truncated r = false.
+Proof.
+  intros Hb Hk Hall. unfold list_uploads. rewrite Hb. destruct km as [|c km']; [contradiction|].
+  rewrite (sm_seek_behind_all (c :: km') (bu_index bu) Hall). eexists. split; [reflexivity|].
+  cbn. auto.
+Qed.
